@@ -33,6 +33,9 @@ type consCase struct {
 	Shared            bool   // the function is shared with other converters / methods (same name for the same kind and parameter)
 	SelfOf            string // the shared extend function takes THIS converter interface as its first parameter (valid for that converter only)
 	ConvName, FuncNam string
+	// a SIBLING method of the same interface naming the SAME function under its own method-level pattern (the function's
+	// parameters are classified per use, not per function): name of the sibling ("" = none) and its pattern
+	Twin, TwinMeth string
 }
 
 var consPatterns = []string{"", "^ctx", "^oth", "^(ctx|oth)"}
@@ -113,6 +116,18 @@ func (c *consCase) source() string {
 		fmt.Fprintf(&b, "\tConvert(source In%s) Out\n\t// goverter:ignore C\n\tZSibling(%s In) Out\n\t// goverter:ignore C\n\tASibling(%s In) Out\n}\n\n", second, c.PName, c.PName)
 	} else if c.Kind == "method" {
 		fmt.Fprintf(&b, "\tConvert(source In%s) Out\n}\n\n", second)
+	} else if c.Twin != "" {
+		fmt.Fprintf(&b, "\tConvert(source In) Out\n")
+		if c.TwinMeth != "" {
+			b.WriteString("\t" + pat(c.TwinMeth))
+		}
+		switch c.Kind {
+		case "default":
+			b.WriteString("\t// goverter:default " + c.FuncNam + "\n\t// goverter:ignore C\n")
+		case "mapfunc":
+			b.WriteString("\t// goverter:map . C | " + c.FuncNam + "\n")
+		}
+		fmt.Fprintf(&b, "\t%s(source *In) *Out\n}\n\n", c.Twin)
 	} else {
 		fmt.Fprintf(&b, "\tConvert(source In) Out\n}\n\n")
 	}
@@ -127,6 +142,13 @@ func (c *consCase) funcDecl() string {
 	second := ""
 	if c.PName != "" {
 		second = ", " + c.PName + " int"
+	}
+	if c.Twin != "" {
+		// both parameters change their role with the pattern, and every reading has exactly one source
+		if c.Kind == "default" {
+			return fmt.Sprintf("func %s(ctxA In, othA int) Out { return Out{} }\n\n", c.FuncNam)
+		}
+		return fmt.Sprintf("func %s(ctxA In, othA int) string { return \"\" }\n\n", c.FuncNam)
 	}
 	switch c.Kind {
 	case "default":
@@ -189,6 +211,15 @@ func runConsumers(e *env) error {
 						add(consCase{Kind: kind, CLI: cli, Conv: conv, Meth: meth, PName: pn, Shared: true})
 					}
 				}
+			}
+		}
+	}
+	// the same function named by TWO METHODS of one interface whose method-level patterns differ (the sibling sorts before or
+	// after `Convert`): each use is classified under its own pattern
+	for _, kind := range []string{"default", "mapfunc"} {
+		for _, pair := range [][2]string{{"^ctx", "^oth"}, {"^oth", "^ctx"}} {
+			for _, twin := range []string{"Aaa", "Zzz"} {
+				add(consCase{Kind: kind, Meth: pair[0], TwinMeth: pair[1], Twin: twin, PName: "othA"})
 			}
 		}
 	}
@@ -263,7 +294,7 @@ func runConsumers(e *env) error {
 			switch {
 			case oc.Stage == "config":
 				im = sx.H("err", sx.A(classifyParseErr(strings.TrimSpace(lastLine(oc.Err)))))
-			case oc.Conv == nil || (len(oc.Conv.Methods) != 1 && len(oc.Conv.Methods) != 3):
+			case oc.Conv == nil || (len(oc.Conv.Methods) != 1 && len(oc.Conv.Methods) != 2 && len(oc.Conv.Methods) != 3):
 				im = sx.H("err", sx.A("no-config:"+oc.Stage))
 			default:
 				m := oc.Conv.Methods[0]
